@@ -307,8 +307,14 @@ let run_laws (fn : string) (args : gvalue list) : unit =
 
 let max_bytes args = List.fold_left (fun m v -> match v with GvBytes l -> max m (List.length l) | _ -> m) 0 args
 
+(* the files of Model/GoFun.v; generator/helpers.go (Model/GoFunGen.v) is evaluated by gofungen_eval.ml *)
+let owns file = canon_program (nm file) <> None
+
 let gofun_eval (fn : string) (args : string list) : string =
   match fn, args with
+  | "GOFUN", file :: _ when not (owns file) -> raise Not_found
+  | "GOFUNDEF", file :: _ when not (owns file) -> raise Not_found
+  | "GOFUNRUN", file :: _ when not (owns file) -> raise Not_found
   | "GOFUN", [ file; "decls" ] -> String.concat " " (List.map str_of (canon_decls (nm file)))
   | "GOFUN", [ file; name ] -> (match canon_decl file name with Some d -> decl_s d | None -> "-")
   | "GOFUN", [ file; name; "eqb" ] ->
